@@ -37,11 +37,13 @@ QUERIES = ["{f}(@)", "{f}(a, b)", "{f}(&a, @)", "{f}()", "{f}(`1`, 'x')", "{f}({
            # slices, projections, flatten, multi-selects, boolean forms, comparisons, pipes, parentheses, filters
            "{f}([-1])", "{f}([0], [-2])", "{f}(@[-1], [-1])", "{f}([1:])", "{f}([::-1], [0])", "{f}([*])", "{f}([])", "{f}([*].a, [-1].a)",
            "{f}(!a, !@)", "{f}(a || b, a && b)", "{f}(a == b, @ == @)", "{f}([a, b], {{x: a}})", "{f}((a), (@))", "{f}([?a])", "{f}(a | b, @ | [0])",
+           # the SAME value in neighbouring positions whose declared types differ (last declared vs first variadic, declared vs declared)
+           "{f}(@, @)", "{f}(a, a)", "{f}(@.a, a)", "{f}(@, @, @)", "{f}(a, a, 'x')", "{f}(`[1]`, `[1]`)", "{f}(b, b, b)", "{f}(@, a, a)", "{f}('s', 's')", "{f}(a, b, b)",
            "{f}([-1], [-2], [-3], [0], [1])", "[*].{f}([-1], @)", "a | {f}([-1])", "{f}(a[-1], b[0], [-1][-1])", "{f}(`[1,2,3]`[-1], 'x')"]
 
 
 # the harness's signature menu, restated for the checker-side guard oracle: (declared types, variadic type)
-SIGS = {1: (["any"], None), 2: (["number", "string"], None), 4: (["any"], "any"), 7: (["string"], "string"), 8: ([], "number"),
+SIGS = {13: (["array"], "string"), 14: (["any", "object"], "number"), 1: (["any"], None), 2: (["number", "string"], None), 4: (["any"], "any"), 7: (["string"], "string"), 8: ([], "number"),
         9: (["number"], "number|null"), 6: ([], None)}
 LIT = re.compile(r"^(?:'[^']*'|`-?[0-9]+`|`null`)$")
 
@@ -84,7 +86,7 @@ def gen(ctx):
         for _ in range(rng.randrange(0, 9)):
             r = rng.random()
             if r < 0.55:
-                ops.append(("r", rng.choice(NAMES), rng.randrange(1, 50), rng.randrange(0, 13)))
+                ops.append(("r", rng.choice(NAMES), rng.randrange(1, 50), rng.randrange(0, 16)))
             elif r < 0.8:
                 ops.append(("d", rng.choice(NAMES)))
             else:
